@@ -3,61 +3,64 @@
     date (digits and safe literals) make a heading line. *)
 From Coq Require Import Lia ZifyBool ZifyNat ZifyN.
 From HP Require Import Base.Bytes Base.Utf8 Base.Num Model.Scanner Model.Parser Model.Dates
-     Spec.PrintSpec Proofs.PrintBytes.
+     Spec.PrintSpec Proofs.PrintBytes Proofs.PrintDecimal.
 Open Scope Z_scope.
 
-(** *** fixed-width numbers: checked by computation on the finite ranges the
-    statements are about (years 0..9999, two-digit fields 0..99) *)
+(** *** fixed-width numbers *)
 
-Fixpoint upto (n : nat) : list N := match n with O => [] | S k => N.of_nat k :: upto k end.
-
-Lemma In_upto k : forall n, (N.to_nat k < n)%nat -> In k (upto n).
+Lemma take_digits_of_digits ds : forall a r rest,
+  forallb is_digit ds = true -> digits_val ds a = Some r ->
+  take_digits (length ds) (ds ++ rest) (Z.of_N a) = Some (Z.of_N r, rest).
 Proof.
-  induction n as [|n IH]; intros H; [lia|]. cbn [upto].
-  destruct (Nat.eq_dec (N.to_nat k) n) as [E|E].
-  - left. rewrite <- E. apply N2Nat.id.
-  - right. apply IH. lia.
+  induction ds as [|c ds IH]; intros a r rest Hd Hv.
+  - cbn in *. injection Hv as <-. reflexivity.
+  - cbn [forallb] in Hd. apply andb_true_iff in Hd. destruct Hd as [Hc Hd].
+    cbn [digits_val] in Hv. rewrite Hc in Hv. cbn [length app take_digits]. unfold digit_val. rewrite Hc.
+    replace (Z.of_N a * 10 + Z.of_N (c - 48)) with (Z.of_N (a * 10 + (c - 48))) by lia.
+    apply IH; assumption.
 Qed.
 
-Definition width_ok (w : nat) (n : N) : bool :=
-  let ds := fmt_num w (Z.of_N n) in
-  match take_digits w ds 0 with Some (v, []) => (v =? Z.of_N n) | _ => false end
-  && forallb is_digit ds && Nat.eqb (length ds) w.
-
-Lemma width4_all : forallb (width_ok 4) (upto (N.to_nat 10000)) = true.
-Proof. vm_compute. reflexivity. Qed.
-Lemma width2_all : forallb (width_ok 2) (upto (N.to_nat 100)) = true.
-Proof. vm_compute. reflexivity. Qed.
-
-Lemma width_ok_spec w n : width_ok w n = true ->
-  take_digits w (fmt_num w (Z.of_N n)) 0 = Some (Z.of_N n, [])
-  /\ forallb is_digit (fmt_num w (Z.of_N n)) = true /\ length (fmt_num w (Z.of_N n)) = w.
+Lemma take_digits_zeros k : forall m s,
+  take_digits (k + m) (brepeat [48%N] k ++ s) 0 = take_digits m s 0.
 Proof.
-  unfold width_ok. intros H. apply andb_true_iff in H. destruct H as [H H3].
-  apply andb_true_iff in H. destruct H as [H1 H2]. split; [|split; [exact H2|apply Nat.eqb_eq, H3]].
-  destruct (take_digits w (fmt_num w (Z.of_N n)) 0) as [[v [|x r]]|]; try discriminate.
-  apply Z.eqb_eq in H1. subst v. reflexivity.
+  induction k as [|k IH]; intros m s; [reflexivity|].
+  cbn [brepeat Nat.add app take_digits]. change (digit_val 48%N) with (Some 0). cbn [Z.mul Z.add]. apply IH.
+Qed.
+
+Lemma brepeat_length c k : length (brepeat [c] k) = k.
+Proof. induction k as [|k IH]; [reflexivity|]. cbn. f_equal. exact IH. Qed.
+
+Lemma brepeat_digits k : forallb is_digit (brepeat [48%N] k) = true.
+Proof. induction k as [|k IH]; [reflexivity|]. cbn [brepeat app forallb]. rewrite IH. reflexivity. Qed.
+
+(** [fmt_num w v] for 0 <= v < 10^w: exactly [w] digits whose value is [v] *)
+Lemma fmt_num_spec w v : (0 < w)%nat -> 0 <= v < 10 ^ Z.of_nat w ->
+  take_digits w (fmt_num w v) 0 = Some (v, [])
+  /\ forallb is_digit (fmt_num w v) = true /\ length (fmt_num w v) = w.
+Proof.
+  intros Hw Hv. unfold fmt_num. set (n := Z.to_N v).
+  destruct (dec_of_N_spec n) as [_ [Hdig [Hval _]]].
+  assert (Hn : (n < 10 ^ N.of_nat w)%N).
+  { unfold n. apply N2Z.inj_lt. rewrite Z2N.id by lia. rewrite N2Z.inj_pow. rewrite nat_N_Z. cbn. lia. }
+  pose proof (dec_of_N_length n w Hw Hn) as Hlen.
+  set (ds := dec_of_N n) in *. split; [|split].
+  - replace w with ((w - length ds) + length ds)%nat at 1 by lia.
+    rewrite take_digits_zeros. rewrite <- (app_nil_r ds) at 2.
+    pose proof (take_digits_of_digits ds 0%N n [] Hdig Hval) as X. change (Z.of_N 0) with 0 in X.
+    rewrite X. unfold n. rewrite Z2N.id by lia. reflexivity.
+  - rewrite forallb_app, brepeat_digits, Hdig. reflexivity.
+  - rewrite app_length, brepeat_length. lia.
 Qed.
 
 Lemma fmt4_spec y : 0 <= y <= 9999 ->
   take_digits 4 (fmt_num 4 y) 0 = Some (y, [])
   /\ forallb is_digit (fmt_num 4 y) = true /\ length (fmt_num 4 y) = 4%nat.
-Proof.
-  intros H. pose proof width4_all as A. rewrite forallb_forall in A.
-  specialize (A (Z.to_N y)).
-  assert (HI : In (Z.to_N y) (upto (N.to_nat 10000))) by (apply In_upto; lia).
-  pose proof (width_ok_spec 4 (Z.to_N y) (A HI)) as S. rewrite Z2N.id in S by lia. exact S.
-Qed.
+Proof. intros H. apply fmt_num_spec; [lia|]. change (10 ^ Z.of_nat 4) with 10000. lia. Qed.
 
 Lemma fmt2_spec v : 0 <= v <= 99 ->
   take_digits 2 (fmt_num 2 v) 0 = Some (v, [])
   /\ forallb is_digit (fmt_num 2 v) = true /\ length (fmt_num 2 v) = 2%nat.
-Proof.
-  intros H. pose proof width2_all as A. rewrite forallb_forall in A.
-  specialize (A (Z.to_N v)).
-  assert (HI : In (Z.to_N v) (upto (N.to_nat 100))) by (apply In_upto; lia).
-  pose proof (width_ok_spec 2 (Z.to_N v) (A HI)) as S. rewrite Z2N.id in S by lia. exact S.
-Qed.
+Proof. intros H. apply fmt_num_spec; [lia|]. change (10 ^ Z.of_nat 2) with 100. lia. Qed.
 
 Lemma take_digits_app n : forall ds acc v r s,
   take_digits n ds acc = Some (v, r) -> take_digits n (ds ++ s) acc = Some (v, r ++ s).
